@@ -158,6 +158,37 @@ func c03MultipartNext(g *prog.Gen, idx int, hist []*prog.Step) *prog.Op {
 	}
 }
 
+
+// c03BatchProgram: DeleteObjects under key-dependent policies: every key of the batch needs its own grant,
+// wherever it stands in the batch.
+func c03BatchProgram(g *prog.Gen, idx int) []*prog.Op {
+	b := "bkt-a"
+	keys := []string{"k1", "dir/k2", "dir/sub/k3", "obj.txt"}
+	ops := []*prog.Op{{Kind: "createBucket", Caller: []string{"root", "u:up1"}[idx%2], B: b, Valid: true}}
+	for _, k := range keys {
+		ops = append(ops, &prog.Op{Kind: "putObject", Caller: "root", B: b, K: k, Put: &prog.PutSpec{Data: []prog.Seg{{Seed: 3500 + idx, Off: 0, Len: 40}}}, Valid: true})
+	}
+	pol := &prog.Policy{ID: 9000 + idx}
+	res := []string{b + "/dir/*", b + "/k1", b + "/*.txt", b + "/dir/sub/*", b + "/*"}
+	pol.Stmts = append(pol.Stmts, prog.Stmt{Allow: true, Principals: []string{"usr1", "usr2"}, Actions: []string{"s3:DeleteObject"}, Resources: []string{res[g.R.Intn(len(res))]}})
+	if g.R.Chance(50) {
+		pol.Stmts = append(pol.Stmts, prog.Stmt{Allow: false, Principals: []string{[]string{"usr1", "*"}[g.R.Intn(2)]}, Actions: []string{"s3:DeleteObject"}, Resources: []string{res[g.R.Intn(4)]}})
+	}
+	ops = append(ops, &prog.Op{Kind: "putBucketPolicy", Caller: "root", B: b, Policy: pol, Valid: true})
+	for n := 3 + g.R.Intn(3); n > 0; n-- {
+		o := &prog.Op{Kind: "deleteObjects", Caller: []string{"u:usr1", "u:usr2", "u:usr1"}[g.R.Intn(3)], B: b}
+		g.R.Shuffle(len(keys), func(i, j int) { keys[i], keys[j] = keys[j], keys[i] })
+		for _, k := range keys[:2+g.R.Intn(3)] {
+			o.Keys = append(o.Keys, [2]string{k, ""})
+		}
+		ops = append(ops, o)
+		for _, k := range []string{"k1", "dir/k2", "dir/sub/k3", "obj.txt"} {
+			ops = append(ops, &prog.Op{Kind: "headObject", Caller: "root", B: b, K: k})
+		}
+	}
+	return ops
+}
+
 func init() {
 	checks["c03"] = checkDef{"C03",
 		"(1) discriminating-policy programs: for every stage-1 op template × every policy action, a policy allowing exactly one action on one resource shape to one caller (optionally with a Deny on the object), then that caller performs the op and root observes the effect; (2) random programs over buckets with different owners, canned ACLs, ownership settings and random valid policies, callers root/admin/userplus/user. Each step compared with Model.Gw.step. Non-trivial = program reaches an existing bucket; distinct by op list.",
@@ -169,6 +200,8 @@ func init() {
 			return runPrograms(a, res, progOpts{name: "discriminating", prop: "C03", programs: n, gen: c03Discriminating, classify: c03Classify, seedOff: 3})
 		}, func(a lib.Args, res *lib.Result) error {
 			return runPrograms(a, res, progOpts{name: "random-acl-policy", prop: "C03", programs: tierN(a, 400, 6000), maxOps: 40, classify: c03Classify, seedOff: 33})
+		}, func(a lib.Args, res *lib.Result) error {
+			return runPrograms(a, res, progOpts{name: "batch-delete-under-policy", prop: "C03", programs: tierN(a, 40, 800), gen: c03BatchProgram, classify: c03Classify, seedOff: 35})
 		}, func(a lib.Args, res *lib.Result) error {
 			return runPrograms(a, res, progOpts{name: "multipart-under-policy", prop: "C03", programs: tierN(a, 60, 1500), next: c03MultipartNext, classify: c03Classify, seedOff: 34})
 		}}}
